@@ -2,10 +2,14 @@
 (* Judge of recorded GLSA evaluations.
    {tid, i:0, ev:"universe", pkgs:[{name, ver:[chars], slot, keywords:[..]}]}     sets the package set
    {tid, i, ev:"entry", via:"match"|"scan", name, arches:[..], vuln:[{op, ver:[chars], glob, slot}], unaff:[..],
-    yielded:BOOL, sel:[BOOL per package], scan:[BOOL per package]}
-   sel : restriction.match(pkg) of the restriction GlsaDirSet yields for the entry;
-   scan: the packages find_vulnerable_repo_pkgs reports for it.
-   Clauses  <Via>_FalseAlarm_<name|arch|unaffected|slot|version>  and  <Via>_Missed ;
+    yielded:BOOL, sel:[BOOL per package], scan:[BOOL per package], grouped:[BOOL per package]}
+   sel    : restriction.match(pkg) of the restriction GlsaDirSet yields for the entry;
+   scan   : the packages find_vulnerable_repo_pkgs reports for it;
+   grouped: match of the per-package-name restriction pkg_grouped_iter yields (entries of one advisory
+            directory have distinct names, so it stands for this entry alone).
+   All three are asked of ONE GlsaDirSet instance, in any order, possibly after walks that were abandoned
+   part-way -- the answers must not depend on that history.
+   Clauses  <Via>_FalseAlarm_<name|arch|unaffected|slot|version>  and  <Via>_Missed  (Via = Match, Scan, Grouped);
    informational "~unspec" (entry outside the specified format), "~judged".                        *)
 EXTENDS Glsa, TraceLib
 VARIABLES l, uni
@@ -23,6 +27,7 @@ Judge(e, u) ==
     ELSE IF ~EntrySpecified(en) THEN {"~unspec"}
     ELSE LET aff == [k \in DOMAIN u |-> AffectedS(u[k], en)] IN    \* (universe versions are checked PlainVer on arrival)
          {"~judged"} \cup Verdicts("Match", e.sel, aff, u, en) \cup Verdicts("Scan", e.scan, aff, u, en)
+                      \cup Verdicts("Grouped", e.grouped, aff, u, en)
 TraceInit == l = 0 /\ uni = <<>>
 TraceNext == /\ l < Len(Tr)
              /\ l' = l + 1
@@ -31,7 +36,7 @@ TraceNext == /\ l < Len(Tr)
                 THEN /\ uni' = [k \in DOMAIN e.pkgs |-> AsPk(e.pkgs[k])]
                      /\ Report(e.tid, e.i, IF \A k \in DOMAIN uni' : uni'[k].ver.ok /\ PlainVer(uni'[k].ver) THEN {} ELSE {"OutsideDomain"})
                 ELSE /\ uni' = uni
-                     /\ Report(e.tid, e.i, IF Len(e.sel) = Len(uni) /\ Len(e.scan) = Len(uni) THEN Judge(e, uni) ELSE {"OutsideDomain"})
+                     /\ Report(e.tid, e.i, IF Len(e.sel) = Len(uni) /\ Len(e.scan) = Len(uni) /\ Len(e.grouped) = Len(uni) THEN Judge(e, uni) ELSE {"OutsideDomain"})
              /\ EndMark(l')
 TraceSpec == TraceInit /\ [][TraceNext]_<<l, uni>>
 =========================================================================
